@@ -65,6 +65,7 @@ type FuncContract struct {
 	Notes      []string
 	Atomic     bool
 	Holds      []string // monitors held on entry (requires held)
+	DeclPkg    string   // package of the contract file that declares it (name resolution scope)
 }
 
 type GhostDecl struct {
@@ -85,6 +86,7 @@ type Axiom struct {
 	Name string
 	E    Expr
 	Src  string
+	Pkg  string
 }
 
 type Monitor struct {
@@ -206,7 +208,7 @@ func (cs *ContractSet) parseContractText(text, file, pkgPath string) error {
 			if err != nil {
 				return fail(err)
 			}
-			ax := &Axiom{Name: strings.TrimSpace(rest[:i]), E: e, Src: src}
+			ax := &Axiom{Name: strings.TrimSpace(rest[:i]), E: e, Src: src, Pkg: pkgPath}
 			if isLemma {
 				cs.Lemmas = append(cs.Lemmas, ax)
 			} else {
@@ -264,7 +266,7 @@ func (cs *ContractSet) parseContractText(text, file, pkgPath string) error {
 				}
 			}
 			key := resolve(name)
-			cur = &FuncContract{Key: key, Loops: map[int]*LoopContract{}, Trusted: m[1] != "", File: file, Line: ll.line, ParamNames: pnames}
+			cur = &FuncContract{Key: key, Loops: map[int]*LoopContract{}, Trusted: m[1] != "", File: file, Line: ll.line, ParamNames: pnames, DeclPkg: pkgPath}
 			if old, ok := cs.Funcs[key]; ok {
 				return fail(fmt.Errorf("duplicate contract for %s (first at %s:%d)", key, old.File, old.Line))
 			}
@@ -396,7 +398,7 @@ func parseClause(fc *FuncContract, s, src string, resolve func(string) string) e
 		if err != nil {
 			return err
 		}
-		cs := CallSpec{Callee: m[2], Kind: m[3], Label: c.Label, E: c.E, Src: c.Src}
+		cs := CallSpec{Callee: m[2], Kind: m[3], Label: c.Label, E: c.E, Src: c.Src + " @" + src}
 		if m[1] == "*" {
 			cs.Ord = -1
 		} else {
